@@ -15,7 +15,7 @@ struct Obj
   static long copies;
   explicit Obj(long x) : v(x) {}
   Obj(const Obj& o) : v(o.v) { ++copies; }
-  Obj(Obj&& o) : v(o.v) { ++copies; }
+  Obj(Obj&& o) : v(o.v) { o.v = -7; ++copies; }   // moved-from objects are recognisable
   Obj& operator=(const Obj& o) { v = o.v; ++copies; return *this; }
 };
 long Obj::copies = 0;
@@ -113,6 +113,17 @@ struct Leaf
     long r = log_call(id, std::forward<A>(a)...);
     if (throws) throw LeafThrow();
     return r;
+  }
+};
+// returns (by reference) the object it receives first
+struct LeafRef
+{
+  long id;
+  template <class A0, class... A>
+  A0& operator()(A0& a0, A&&... a) const
+  {
+    log_call(id, a0, std::forward<A>(a)...);
+    return a0;
   }
 };
 struct Catcher
